@@ -300,7 +300,8 @@ def run_property(prop, tier, seed, cases, mode, functions_encoded, bounds, extra
     cldr = hostrun.Cldr()
     stats, findings = engine_g.run(prop, cases, flavours_mode=mode, run_name="%s_%s" % (prop, tier), cldr=cldr,
                                    extra_key_check=extra_key_check,
-                                   timeout_ms=20000 if tier == "quick" else 60000)
+                                   timeout_ms=20000 if tier == "quick" else 60000,
+                                   solver_diff=(4 if tier == "quick" else 30))
     # keys the evaluator could not handle: ask rustc whether the generated code is valid at all
     seen_cases = set()
     for c, path, ns, why in stats.eval_errors:
@@ -374,6 +375,7 @@ def run_property(prop, tier, seed, cases, mode, functions_encoded, bounds, extra
         "codegen_ms_total": round(stats.gen_ms, 1),
         "symbolic_eval_ms_total": round(stats.eval_ms, 1),
         "native_validation_requests": val_total,
+        "second_solver_opinion": stats.solver_diff,
         "functions_encoded": functions_encoded,
         "bounds": bounds,
         "known_findings_hit": {k: n for k, (_, n) in known_hits.items()},
